@@ -17,6 +17,7 @@ from hv import boot  # noqa: F401
 from haiway import MISSING, Missing, State  # noqa: E402
 
 Y, N, U = "yes", "no", "unspecified"
+VALUE_FAILURES: list[tuple[str, str]] = []
 
 
 # ---------------------------------------------------------------------------------------------
@@ -310,8 +311,9 @@ def values(t, limit: int = 3) -> list:  # noqa: C901, PLR0912
         for v in values(t[1])[:2]:
             try:
                 out.append(Box[ann](item=v))
-            except Exception:  # noqa: BLE001
-                pass  # the inner term's own program reports why a conforming value is refused
+            except Exception as exc:  # noqa: BLE001
+                # a conforming inner value is refused by the specialised Box: reported by the caller
+                VALUE_FAILURES.append((repr(t), f"{type(exc).__name__}: {exc}"[:160]))
         return out
     raise ValueError(k)
 
